@@ -24,6 +24,7 @@ import (
 // The twin is the same router built without caching.
 
 type rtServed struct {
+	mw     bool // the route's own middleware has run
 	who    string
 	params Sx
 	data   string
@@ -48,6 +49,8 @@ func paramsSx(ps rux.Params) Sx {
 }
 
 type rtRouter struct {
+	rpath  map[int]string // Route.Path() / Methods() of the registered routes (a match must report the same)
+	rmeths map[int]string
 	meths  []Sx
 	decoy  *rux.Router
 	r      *rux.Router
@@ -74,6 +77,10 @@ func rtBuild(c Sx, caching bool) *rtRouter {
 			if caching {
 				// the three spellings of "cache with capacity n"; which one is used depends only on the case
 				n := uint16(o.List[1].Int())
+				if n == 1000 && len(xs[2].Lst())%2 == 0 { // the default capacity: EnableCaching alone
+					opts = append(opts, rux.EnableCaching)
+					break
+				}
 				switch (o.List[1].Int() + len(xs[2].Lst())) % 4 {
 				case 0:
 					opts = append(opts, rux.CachingWithNum(n))
@@ -117,7 +124,7 @@ func rtBuild(c Sx, caching bool) *rtRouter {
 			panic("rt: bad option " + o.String())
 		}
 	}
-	rr := &rtRouter{byName: map[string]int{}}
+	rr := &rtRouter{byName: map[string]int{}, rpath: map[int]string{}, rmeths: map[int]string{}}
 	if direct {
 		rr.r = rux.New()
 		for _, o := range opts {
@@ -144,18 +151,23 @@ func rtBuild(c Sx, caching bool) *rtRouter {
 		rr.decoy = rux.New(opts...)
 		rr.decoy.Any("/{decoyall:.*}", func(c *rux.Context) { c.SetStatus(299) })
 	}
-	if customNF {
-		rr.r.NotFound(func(c *rux.Context) { rtCur.who = "nf"; c.SetStatus(404) })
+	installFallbacks := func() {
+		if customNF {
+			rr.r.NotFound(func(c *rux.Context) { rtCur.who = "nf"; c.SetStatus(404) })
+		}
+		if customNA {
+			rr.r.NotAllowed(func(c *rux.Context) {
+				rtCur.who = "na"
+				al, _ := c.SafeGet(rux.CTXAllowedMethods).([]string)
+				al = append([]string{}, al...)
+				sort.Strings(al)
+				rtCur.data = strings.Join(al, ", ")
+				c.SetStatus(405)
+			})
+		}
 	}
-	if customNA {
-		rr.r.NotAllowed(func(c *rux.Context) {
-			rtCur.who = "na"
-			al, _ := c.SafeGet(rux.CTXAllowedMethods).([]string)
-			al = append([]string{}, al...)
-			sort.Strings(al)
-			rtCur.data = strings.Join(al, ", ")
-			c.SetStatus(405)
-		})
+	if len(xs[2].Lst())%2 == 0 { // before the routes, or after them
+		installFallbacks()
 	}
 	register := func(body func()) { body() }
 	if inGroup { // all definitions are registered inside one group
@@ -175,6 +187,9 @@ func rtBuild(c Sx, caching bool) *rtRouter {
 			}
 		}
 	})
+	if len(xs[2].Lst())%2 == 1 {
+		installFallbacks()
+	}
 	rr.regs = append(rr.regs, rr.meths...)
 	if lateOpt { // options may only be applied while the router has no routes
 		ok := func() (ok bool) {
@@ -200,13 +215,27 @@ func (rr *rtRouter) addDef(i int, d Sx) (ok bool, meths Sx) {
 	name := fmt.Sprintf("r%d", i)
 	rr.byName[name] = i
 	var h rux.HandlerFunc
+	withMW := i%2 == 1 // every second route has a middleware of its own: it must have run before the main handler
 	if !d.List[2].Bool() {
 		h = func(c *rux.Context) {
 			rtCur.who = fmt.Sprint(i)
+			if withMW && !rtCur.mw {
+				rtCur.who = fmt.Sprintf("%d-without-its-middleware", i)
+			}
 			rtCur.params = paramsSx(c.Params)
+			// the accessors agree with the map
+			for k, v := range c.Params {
+				if c.Param(k) != v || !c.Params.Has(k) || c.Params.String(k) != v {
+					rtCur.params = L(A("param-accessors-disagree"), S(k), S(v), S(c.Param(k)))
+				}
+			}
+			if c.Params.Has("no-such-variable") || c.Param("no-such-variable") != "" {
+				rtCur.params = L(A("param-accessors-disagree"), S("no-such-variable"))
+			}
 			c.SetStatus(200)
 		}
 	}
+	mw := func(c *rux.Context) { rtCur.mw = true; c.Next() }
 	defer func() {
 		if e := recover(); e != nil {
 			ok = false
@@ -216,11 +245,19 @@ func (rr *rtRouter) addDef(i int, d Sx) (ok bool, meths Sx) {
 	var rt *rux.Route
 	if len(ms) == 1 && i%3 == 1 && h != nil && rpShortcut(rr.r, ms[0]) != nil {
 		// the per-method shortcut, named afterwards: the same registration
-		rt = rpShortcut(rr.r, ms[0])(d.List[1].Str(), h)
+		if withMW {
+			rt = rpShortcut(rr.r, ms[0])(d.List[1].Str(), h, mw)
+		} else {
+			rt = rpShortcut(rr.r, ms[0])(d.List[1].Str(), h)
+		}
 		rt.NamedTo(name, rr.r)
 	} else {
 		rt = rr.r.AddNamed(name, d.List[1].Str(), h, ms...)
+		if withMW {
+			rt.Use(mw)
+		}
 	}
+	rr.rpath[i], rr.rmeths[i] = rt.Path(), strings.Join(rt.Methods(), ",")
 	// the method names the route is stored under
 	return true, L(A("meths"), I(i), SL(rt.Methods()))
 }
@@ -242,6 +279,9 @@ func (rr *rtRouter) match(m, p string) (res Sx) {
 		i, ok := rr.byName[rt.Name()]
 		if !ok {
 			return L(A("found"), A("unknown"), paramsSx(ps))
+		}
+		if rt.Path() != rr.rpath[i] || strings.Join(rt.Methods(), ",") != rr.rmeths[i] || len(rt.Handlers()) != map[bool]int{true: 1, false: 0}[i%2 == 1 && rt.Handler() != nil] {
+			return L(A("found"), A("matched-route-differs-from-the-registered-one"), S(rt.Path()), S(strings.Join(rt.Methods(), ",")), I(len(rt.Handlers())))
 		}
 		// a fallback hit is reported by QuickMatch as the "/*" route with nil params and nil allowed methods;
 		// it is told apart from a direct static hit of "/*" by the request path
